@@ -301,6 +301,18 @@ pub fn random(args: &Args) {
                 };
                 due.push(f);
             }
+            // bursts of inbound datagrams sized to make the receive rings wrap (padding records) and overflow
+            if rng.chance(12) {
+                for b in 0..rng.range(1, 4) {
+                    let h = rng.range(2, 12) as u8;
+                    let k = rng.below(2) as usize;
+                    let did = 200_000 + steps as u32 * 8 + b as u32;
+                    let size = rng.range(4, (w.socks[k].rxp as u64 * 2 / 3).max(5)) as usize;
+                    w.sizes.insert(did, size);
+                    let ip = ipv4_packet([10, 0, 0, h], MY_IP, 17, steps as u16, 64, &udp_datagram(5000 + h as u16, 6000 + k as u16, &dgram_payload(did, size)), true);
+                    due.push(eth_frame(MY_MAC, mac_of([10, 0, 0, h]), 0x0800, &ip));
+                }
+            }
             let budget = if rng.chance(25) { Some(rng.range(0, 2) as usize) } else { None };
             let Some(out) = w.poll(due, budget, &mut t) else { break };
             // the virtual stations react
@@ -325,6 +337,21 @@ pub fn random(args: &Args) {
                         continue;
                     }
                     let cap = *rng.pick(&[8usize, 64, 2048, 2048]);
+                    // look before taking: peek must show exactly what recv will hand out next
+                    if rng.chance(50) {
+                        match s.peek() {
+                            Ok((data, meta)) => {
+                                let n = data.len();
+                                let did = if n >= 4 { u32::from_be_bytes([data[0], data[1], data[2], data[3]]) } else { u32::MAX };
+                                let exp = dgram_payload(did, n);
+                                let diff = data.iter().zip(exp.iter()).position(|(a, b)| a != b).map(|x| x as i64).unwrap_or(-1);
+                                let ev = json!({"ev":"api","now":w.now,"call":"peek","sock":k,"err":"none","did":did as i64,"size":n,"diff":diff,"sport":meta.endpoint.port});
+                                t.ev(ev);
+                            }
+                            Err(_) => {}
+                        }
+                    }
+                    let s = w.sockets.get_mut::<udp::Socket>(h);
                     let mut buf = vec![0xEEu8; cap];
                     let r = s.recv_slice(&mut buf);
                     match r {
